@@ -869,7 +869,7 @@ func (d *DataRow) getStatsKey(res *Response) string {
 		keyValues = append(keyValues, d.GetString(res.request.RequestColumns[i]))
 	}
 
-	return strings.Join(keyValues, ListSepChar1)
+	return joinStatsKey(keyValues)
 }
 
 // UpdateValues updates this datarow with new values.
